@@ -325,4 +325,531 @@ theorem fanOut_fold_eq (d k : Nat) : ∀ (l pre : List (Bytes × Record)) (w : W
     rw [ih]
     simp only [List.append_assoc, List.cons_append, List.nil_append, List.flatMap_cons]
 
+/-! ### the queued pair updates -/
+
+/-- everything but the pair states is unchanged -/
+structure PairOnly (w w' : World) : Prop where
+  bank : w'.bank = w.bank
+  tok : w'.tok = w.tok
+  registry : w'.registry = w.registry
+  facAddr : w'.facAddr = w.facAddr
+  denoms : w'.denoms = w.denoms
+  rawId : w'.rawId = w.rawId
+
+theorem PairOnly.refl (w : World) : PairOnly w w := ⟨rfl, rfl, rfl, rfl, rfl, rfl⟩
+theorem PairOnly.trans {a b c : World} (h1 : PairOnly a b) (h2 : PairOnly b c) : PairOnly a c :=
+  ⟨h2.bank.trans h1.bank, h2.tok.trans h1.tok, h2.registry.trans h1.registry, h2.facAddr.trans h1.facAddr,
+   h2.denoms.trans h1.denoms, h2.rawId.trans h1.rawId⟩
+
+theorem pairUpdateDecimals_inv {w w' : World} {p s d da db : Nat}
+    (h : pairUpdateDecimals w p s d da db = .ok w') :
+    ∃ P, w.pair p = some P ∧ s = P.factory ∧
+      w' = { w with
+        pair := fun a =>
+          if a = p then some (if P.a0 = .native d ∨ P.a1 = .native d then { P with d0 := da, d1 := db } else P)
+          else w.pair a } := by
+  unfold pairUpdateDecimals at h
+  split at h
+  · cases h
+  rename_i P hP
+  split at h
+  · cases h
+  rename_i hs
+  injection h with h
+  exact ⟨P, hP, Decidable.not_not.mp hs, h.symm⟩
+
+theorem pairUpdateDecimals_pairOnly {w w' : World} {p s d da db : Nat}
+    (h : pairUpdateDecimals w p s d da db = .ok w') : PairOnly w w' := by
+  obtain ⟨P, _, _, rfl⟩ := pairUpdateDecimals_inv h
+  exact ⟨rfl, rfl, rfl, rfl, rfl, rfl⟩
+
+theorem fanOutMsgs_pairOnly {d : Nat} : ∀ (l : List (Nat × Nat × Nat)) {w w' : World},
+    facFanOutMsgs d w l = .ok w' → PairOnly w w'
+  | [], w, w', h => by
+    simp only [facFanOutMsgs] at h; injection h with h; subst h; exact PairOnly.refl _
+  | (p, da, db) :: rest, w, w', h => by
+    simp only [facFanOutMsgs, bind_ok_iff] at h
+    obtain ⟨w1, h1, h2⟩ := h
+    exact (pairUpdateDecimals_pairOnly h1).trans (fanOutMsgs_pairOnly rest h2)
+
+theorem fanOutMsgs_spec (d k : Nat) : ∀ (l : List (Bytes × Record)) (w w' : World),
+    l.Pairwise (fun e f => e.2.pair ≠ f.2.pair) →
+    (∀ e ∈ l, ∃ P, w.pair e.2.pair = some P ∧ P.a0 = e.2.a0 ∧ P.a1 = e.2.a1) →
+    facFanOutMsgs d w (l.flatMap (msgOf d k)) = .ok w' →
+    (∀ p, (∀ e ∈ l, hasDenom d e.2 → e.2.pair ≠ p) → w'.pair p = w.pair p) ∧
+    (∀ e ∈ l, hasDenom d e.2 → ∃ P, w.pair e.2.pair = some P ∧
+        w'.pair e.2.pair = some { P with d0 := (updRec d k e.2).d0, d1 := (updRec d k e.2).d1 })
+  | [], w, w', _, _, h => by
+    simp only [List.flatMap_nil, facFanOutMsgs] at h
+    injection h with h; subst h
+    exact ⟨fun _ _ => rfl, fun e he => by cases he⟩
+  | e :: rest, w, w', hp, hm, h => by
+    rw [List.pairwise_cons] at hp
+    obtain ⟨hhd, hrest⟩ := hp
+    by_cases hc : hasDenom d e.2
+    · have hmsg : msgOf d k e = [(e.2.pair, (updRec d k e.2).d0, (updRec d k e.2).d1)] := by
+        unfold msgOf; exact if_pos hc
+      rw [List.flatMap_cons, hmsg] at h
+      simp only [List.cons_append, List.nil_append, facFanOutMsgs, bind_ok_iff] at h
+      obtain ⟨w1, h1, h2⟩ := h
+      obtain ⟨P, hP, _, rfl⟩ := pairUpdateDecimals_inv h1
+      obtain ⟨P0, hP0, ha0, ha1⟩ := hm e List.mem_cons_self
+      rw [hP] at hP0; injection hP0 with hP0; subst hP0
+      have hcP : P.a0 = .native d ∨ P.a1 = .native d := by rw [ha0, ha1]; exact hc
+      have hm' : ∀ e' ∈ rest, ∃ P', (if e'.2.pair = e.2.pair then
+          some (if P.a0 = .native d ∨ P.a1 = .native d then
+            { P with d0 := (updRec d k e.2).d0, d1 := (updRec d k e.2).d1 } else P) else w.pair e'.2.pair) = some P' ∧
+          P'.a0 = e'.2.a0 ∧ P'.a1 = e'.2.a1 := by
+        intro e' he'
+        have : ¬ e'.2.pair = e.2.pair := fun hh => hhd e' he' hh.symm
+        rw [if_neg this]
+        exact hm e' (List.mem_cons_of_mem _ he')
+      obtain ⟨ih1, ih2⟩ := fanOutMsgs_spec d k rest _ w' hrest hm' h2
+      constructor
+      · intro p hpp
+        have hne : ¬ p = e.2.pair := fun hh => hpp e List.mem_cons_self hc hh.symm
+        rw [ih1 p (fun e' he' hc' => hpp e' (List.mem_cons_of_mem _ he') hc')]
+        simp only [hne, if_false]
+      · intro e' he' hc'
+        rcases List.mem_cons.mp he' with rfl | he'
+        · refine ⟨P, hP, ?_⟩
+          rw [ih1 e'.2.pair (fun e'' he'' _ => (hhd e'' he'').symm)]
+          simp only [if_true, hcP]
+        · obtain ⟨P', hP', hw'⟩ := ih2 e' he' hc'
+          have : ¬ e'.2.pair = e.2.pair := fun hh => hhd e' he' hh.symm
+          simp only [this, if_false] at hP'
+          exact ⟨P', hP', hw'⟩
+    · have hmsg : msgOf d k e = [] := by unfold msgOf; exact if_neg hc
+      rw [List.flatMap_cons, hmsg, List.nil_append] at h
+      obtain ⟨ih1, ih2⟩ := fanOutMsgs_spec d k rest w w' hrest (fun e' he' => hm e' (List.mem_cons_of_mem _ he')) h
+      constructor
+      · intro p hpp
+        exact ih1 p (fun e' he' hc' => hpp e' (List.mem_cons_of_mem _ he') hc')
+      · intro e' he' hc'
+        rcases List.mem_cons.mp he' with rfl | he'
+        · exact absurd hc' hc
+        · exact ih2 e' he' hc'
+
+/-! ### `facAddDecimals` characterised -/
+
+theorem addDecimals_char {w w' : World} {s d k : Nat} (hr : RegOK w) (h : facAddDecimals w s d k = .ok w') :
+    w'.facAddr = w.facAddr ∧ w'.rawId = w.rawId ∧
+    w'.denoms = (fun x => if x = d then some k else w.denoms x) ∧
+    w'.registry = w.registry.map (updEntry d k) ∧
+    (∀ p, (∀ e ∈ w.registry, hasDenom d e.2 → e.2.pair ≠ p) → w'.pair p = w.pair p) ∧
+    (∀ e ∈ w.registry, hasDenom d e.2 → ∃ P, w.pair e.2.pair = some P ∧
+        w'.pair e.2.pair = some { P with d0 := (updRec d k e.2).d0, d1 := (updRec d k e.2).d1 }) := by
+  unfold facAddDecimals at h
+  dsimp only at h
+  split at h
+  · cases h
+  split at h
+  · cases h
+  split at h
+  · simp only [bind_ok_iff] at h
+    obtain ⟨⟨w2, msgs⟩, h1, h2⟩ := h
+    have hf := fanOut_fold_eq d k w.registry []
+      { w with denoms := fun x => if x = d then some k else w.denoms x } []
+      (by simp) (by simpa using hr.sorted) hr.keyed hr.distinctAssets
+    rw [hf] at h1
+    injection h1 with h1
+    simp only [List.nil_append, Prod.mk.injEq] at h1
+    obtain ⟨rfl, rfl⟩ := h1
+    have po := fanOutMsgs_pairOnly _ h2
+    have hm : ∀ e ∈ w.registry, ∃ P, w.pair e.2.pair = some P ∧ P.a0 = e.2.a0 ∧ P.a1 = e.2.a1 := by
+      intro e he
+      obtain ⟨P, hP, a, b, _⟩ := hr.matched e he
+      exact ⟨P, hP, a, b⟩
+    obtain ⟨s1, s2⟩ := fanOutMsgs_spec d k w.registry _ w' hr.distinctPairs (by exact hm) h2
+    exact ⟨po.facAddr, po.rawId, po.denoms, po.registry, s1, s2⟩
+  · rename_i hex
+    simp only [pure_ok_iff] at h
+    subst h
+    have hno : ∀ e ∈ w.registry, ¬ hasDenom d e.2 := by
+      intro e he hc
+      have := hr.denomsKnown e he d hc
+      exact hex this
+    refine ⟨rfl, rfl, rfl, ?_, fun _ _ => rfl, fun e he hc => absurd hc (hno e he)⟩
+    show w.registry = _
+    conv_lhs => rw [← List.map_id w.registry]
+    apply List.map_congr_left
+    intro e he
+    simp only [id, updEntry, updRec_of_not (hno e he)]
+
+theorem pairwise_mem_ne {α} {S : α → α → Prop} (hsym : ∀ a b, S a b → S b a) :
+    ∀ {l : List α}, l.Pairwise S → ∀ a ∈ l, ∀ b ∈ l, a ≠ b → S a b
+  | [], _, a, ha, _, _, _ => by cases ha
+  | hd :: t, hp, a, ha, b, hb, hne => by
+    rw [List.pairwise_cons] at hp
+    obtain ⟨hhd, ht⟩ := hp
+    rcases List.mem_cons.mp ha with rfl | ha' <;> rcases List.mem_cons.mp hb with rfl | hb'
+    · exact absurd rfl hne
+    · exact hhd b hb'
+    · exact hsym _ _ (hhd a ha')
+    · exact pairwise_mem_ne hsym ht a ha' b hb' hne
+
+theorem distinct_pair_eq {w : World} (hr : RegOK w) {e f : Bytes × Record} (he : e ∈ w.registry)
+    (hf : f ∈ w.registry) (h : e.2.pair = f.2.pair) : e = f := by
+  by_contra hne
+  exact pairwise_mem_ne (fun _ _ h => Ne.symm h) hr.distinctPairs e he f hf hne h
+
+theorem recMatches_after {w w' : World} {d k : Nat} (hr : RegOK w) (hfac : w'.facAddr = w.facAddr)
+    (h1 : ∀ p, (∀ e ∈ w.registry, hasDenom d e.2 → e.2.pair ≠ p) → w'.pair p = w.pair p)
+    (h2 : ∀ e ∈ w.registry, hasDenom d e.2 → ∃ P, w.pair e.2.pair = some P ∧
+        w'.pair e.2.pair = some { P with d0 := (updRec d k e.2).d0, d1 := (updRec d k e.2).d1 })
+    {e : Bytes × Record} (he : e ∈ w.registry) : recMatches w' (updRec d k e.2) := by
+  obtain ⟨P, hP, a0, a1, d0, d1, lp, cm, rq, fc⟩ := hr.matched e he
+  by_cases hc : hasDenom d e.2
+  · obtain ⟨P', hP', hw'⟩ := h2 e he hc
+    rw [hP] at hP'; injection hP' with hP'; subst hP'
+    exact ⟨_, hw', a0, a1, rfl, rfl, lp, cm, rq, by rw [hfac]; exact fc⟩
+  · have hsame : w'.pair e.2.pair = w.pair e.2.pair :=
+      h1 _ (fun e' he' hc' hp => hc (by rw [distinct_pair_eq hr he he' hp.symm]; exact hc'))
+    rw [updRec_of_not hc]
+    exact ⟨P, by rw [hsame]; exact hP, a0, a1, d0, d1, lp, cm, rq, by rw [hfac]; exact fc⟩
+
+theorem regOK_addDecimals {w w' : World} {s d k : Nat} (hr : RegOK w) (_hraw : RawOK w)
+    (h : facAddDecimals w s d k = .ok w') : RegOK w' := by
+  obtain ⟨hfac, hraw', hden, hreg, h1, h2⟩ := addDecimals_char hr h
+  constructor
+  · rw [hreg]; exact sorted_of_keys_eq (map_fst_updEntry d k _) hr.sorted
+  · intro e' he'
+    rw [hreg] at he'
+    obtain ⟨e, he, rfl⟩ := List.mem_map.mp he'
+    rw [hraw']
+    exact hr.keyed e he
+  · intro e' he'
+    rw [hreg] at he'
+    obtain ⟨e, he, rfl⟩ := List.mem_map.mp he'
+    exact recMatches_after hr hfac h1 h2 he
+  · rw [hreg, List.pairwise_map]; exact hr.distinctPairs
+  · intro e' he'
+    rw [hreg] at he'
+    obtain ⟨e, he, rfl⟩ := List.mem_map.mp he'
+    exact hr.distinctAssets e he
+  · intro e' he' x hx
+    rw [hreg] at he'
+    obtain ⟨e, he, rfl⟩ := List.mem_map.mp he'
+    have := hr.denomsKnown e he x hx
+    rw [hden]
+    by_cases hxd : x = d
+    · simp [hxd]
+    · simpa [hxd] using this
+
+theorem update_reaches_all {w w' : World} {s d k : Nat} (hr : RegOK w) (_hraw : RawOK w)
+    (h : facAddDecimals w s d k = .ok w') :
+    w'.denoms d = some k ∧
+    w'.registry.map (·.1) = w.registry.map (·.1) ∧
+    (∀ e' ∈ w'.registry, ∃ e ∈ w.registry, e.1 = e'.1 ∧
+        e'.2.a0 = e.2.a0 ∧ e'.2.a1 = e.2.a1 ∧ e'.2.pair = e.2.pair ∧ e'.2.lp = e.2.lp ∧ e'.2.req = e.2.req ∧ e'.2.comm = e.2.comm ∧
+        e'.2.d0 = (if e.2.a0 = .native d then k else e.2.d0) ∧
+        e'.2.d1 = (if e.2.a1 = .native d then k else e.2.d1) ∧
+        recMatches w' e'.2) := by
+  obtain ⟨hfac, _, hden, hreg, h1, h2⟩ := addDecimals_char hr h
+  refine ⟨by rw [hden]; simp, by rw [hreg]; exact map_fst_updEntry d k _, ?_⟩
+  intro e' he'
+  rw [hreg] at he'
+  obtain ⟨e, he, rfl⟩ := List.mem_map.mp he'
+  exact ⟨e, he, rfl, rfl, rfl, rfl, rfl, rfl, rfl, rfl, rfl, recMatches_after hr hfac h1 h2 he⟩
+
+theorem update_others_untouched {w w' : World} {s d k : Nat} (hr : RegOK w) (_hraw : RawOK w)
+    (h : facAddDecimals w s d k = .ok w') (p : Nat) (P : PairSt) (hP : w.pair p = some P)
+    (h0 : P.a0 ≠ .native d) (h1 : P.a1 ≠ .native d) : w'.pair p = some P := by
+  obtain ⟨_, _, _, _, hp1, _⟩ := addDecimals_char hr h
+  rw [hp1 p ?_]
+  · exact hP
+  intro e he hc hp
+  obtain ⟨P', hP', a0, a1, _⟩ := hr.matched e he
+  rw [hp, hP] at hP'; injection hP' with hP'; subst hP'
+  rcases hc with hc | hc
+  · exact h0 (a0.trans hc)
+  · exact h1 (a1.trans hc)
+
+/-! ### the fan-out moves nothing -/
+
+theorem facFanOut1_bt {denom decimals : Nat} {w w' : World} {msgs msgs' : List (Nat × Nat × Nat)}
+    {e : Bytes × Record} (h : facFanOut1 denom decimals (w, msgs) e = .ok (w', msgs')) :
+    w'.bank = w.bank ∧ w'.tok = w.tok := by
+  unfold facFanOut1 at h
+  dsimp only at h
+  split at h
+  · cases h
+  injection h with h
+  by_cases h0 : e.2.a0 = .native denom <;> by_cases h1 : e.2.a1 = .native denom <;>
+    simp only [h0, h1, if_true, if_false, Prod.mk.injEq] at h <;>
+    (obtain ⟨rfl, _⟩ := h; exact ⟨rfl, rfl⟩)
+
+theorem facFanOut_fold_bt {denom decimals : Nat} : ∀ (l : List (Bytes × Record)) {acc acc' : World × List (Nat × Nat × Nat)},
+    l.foldlM (facFanOut1 denom decimals) acc = .ok acc' → acc'.1.bank = acc.1.bank ∧ acc'.1.tok = acc.1.tok
+  | [], acc, acc', h => by
+    simp only [List.foldlM_nil, pure_ok_iff] at h; subst h; exact ⟨rfl, rfl⟩
+  | e :: l, (w, msgs), acc', h => by
+    simp only [List.foldlM_cons, bind_ok_iff] at h
+    obtain ⟨⟨w1, msgs1⟩, h1, h2⟩ := h
+    obtain ⟨a1, b1⟩ := facFanOut1_bt h1
+    obtain ⟨a2, b2⟩ := facFanOut_fold_bt l h2
+    exact ⟨a2.trans a1, b2.trans b1⟩
+
+theorem update_moves_nothing {w w' : World} {s d k : Nat} (h : facAddDecimals w s d k = .ok w') :
+    w'.bank = w.bank ∧ w'.tok = w.tok := by
+  unfold facAddDecimals at h
+  dsimp only at h
+  split at h
+  · cases h
+  split at h
+  · cases h
+  split at h
+  · simp only [bind_ok_iff] at h
+    obtain ⟨⟨w2, msgs⟩, h1, h2⟩ := h
+    obtain ⟨a1, b1⟩ := facFanOut_fold_bt _ h1
+    have po := fanOutMsgs_pairOnly _ h2
+    exact ⟨po.bank.trans a1, po.tok.trans b1⟩
+  · simp only [pure_ok_iff] at h
+    subst h
+    exact ⟨rfl, rfl⟩
+
+/-! ### every handler outside the factory keeps the contract states (`Same`), except the pair's decimals update -/
+
+theorem pairSwap_same {w w' : World} {p : Nat} {P : PairSt} {funds : List (Nat × Nat)} {trader : Nat}
+    {offer : Asset} {amt : Nat} {belief ms tgt : Option Nat} {o : SwapOut}
+    (h : pairSwap w p P funds trader offer amt belief ms tgt = .ok (w', o)) : Same w w' := by
+  unfold pairSwap at h
+  simp only [bind_ok_iff] at h
+  obtain ⟨_, _, r0, _, r1, _, a2, _, a3, _, _, _, h⟩ := h
+  split at h <;> simp only [bind_ok_iff, pure_ok_iff, Prod.mk.injEq] at h
+  · obtain ⟨_, rfl, rfl, _⟩ := h; exact Same.refl _
+  · obtain ⟨w1, hw, rfl, _⟩ := h; exact payout_same hw
+
+theorem pairWithdraw_same {w w' : World} {p : Nat} {P : PairSt} {sender amount : Nat} {x : Nat × Nat}
+    (h : pairWithdraw w p P sender amount = .ok (w', x)) : Same w w' := by
+  unfold pairWithdraw at h
+  simp only [bind_ok_iff, pure_ok_iff, Prod.mk.injEq] at h
+  obtain ⟨r0, _, r1, _, S, _, ratio, _, x0, _, x1, _, w1, h1, w2, h2, w3, h3, rfl, _⟩ := h
+  exact ((payout_same h1).trans (payout_same h2)).trans (tokBurn_same h3).1
+
+theorem pairProvide_same {w w' : World} {p : Nat} {P : PairSt} {sender : Nat} {funds : List (Nat × Nat)}
+    {as0 as1 : Asset} {am0 am1 : Nat} {tol receiver : Option Nat} {sh : Nat}
+    (h : pairProvide w p P sender funds as0 am0 as1 am1 tol receiver = .ok (w', sh)) : Same w w' := by
+  unfold pairProvide at h
+  simp only [bind_ok_iff] at h
+  obtain ⟨_, _, _, _, r0, _, r1, _, d0, _, d1, _, _, _, _, _, _, _, _, _, _, _, _, _, _, _, S, _, share, _, h⟩ := h
+  split at h
+  · cases h
+  simp only [bind_ok_iff, pure_ok_iff, Prod.mk.injEq] at h
+  obtain ⟨share', _, w1, h1, w2, h2, w3, h3, w4, h4, rfl, _⟩ := h
+  have k1 : Same w w1 := by
+    split at h1
+    · exact (tokTransferFrom_same h1).1
+    · simp only [pure_ok_iff] at h1; subst h1; exact Same.refl _
+  have k2 : Same w1 w2 := by
+    split at h2
+    · exact (tokTransferFrom_same h2).1
+    · simp only [pure_ok_iff] at h2; subst h2; exact Same.refl _
+  have k3 : Same w2 w3 := by
+    split at h3
+    · exact (tokMint_same h3).1
+    · simp only [pure_ok_iff] at h3; subst h3; exact Same.refl _
+  exact ((k1.trans k2).trans k3).trans (tokMint_same h4).1
+
+theorem pairReceive_same {w w' : World} {p t from_ amount : Nat} {hk : Hook} {out : Out}
+    (h : pairReceive w p t from_ amount hk = .ok (w', out)) : Same w w' := by
+  cases hk with
+  | swap offer amt b ms tgt =>
+    obtain ⟨P, _, _, _, _, w1, o, hs, he⟩ := pairReceive_swap h
+    simp only [Prod.mk.injEq] at he
+    obtain ⟨rfl, _⟩ := he
+    exact pairSwap_same hs
+  | withdraw =>
+    obtain ⟨P, _, _, w1, x0, x1, hs, he⟩ := pairReceive_withdraw h
+    simp only [Prod.mk.injEq] at he
+    obtain ⟨rfl, _⟩ := he
+    exact pairWithdraw_same hs
+  | routerOps ops mn tgt => exact absurd h pairReceive_routerOps
+  | garbage => exact absurd h pairReceive_garbage
+
+/-- a pair execute keeps the contract states, unless it is the decimals update -/
+theorem pairExec_cases {w w' : World} {s p : Nat} {funds : List (Nat × Nat)} {m : PairMsg} {out : Out}
+    (h : pairExec w s p funds m = .ok (w', out)) :
+    Same w w' ∨ ∃ d da db w0, m = .updateDecimals d da db ∧ Same w w0 ∧ pairUpdateDecimals w0 p s d da db = .ok w' := by
+  cases m with
+  | provide as0 am0 as1 am1 tol rcv =>
+    obtain ⟨P, w0, w1, sh, _, h0, h1, he⟩ := pairExec_provide h
+    simp only [Prod.mk.injEq] at he
+    obtain ⟨rfl, _⟩ := he
+    exact .inl ((attach_same h0).1.trans (pairProvide_same h1))
+  | swap offer amt b ms tgt =>
+    cases offer with
+    | token t => exact absurd h pairExec_swap_token
+    | native d =>
+      obtain ⟨P, w0, w1, o, _, h0, h1, he⟩ := pairExec_swap_native h
+      simp only [Prod.mk.injEq] at he
+      obtain ⟨rfl, _⟩ := he
+      exact .inl ((attach_same h0).1.trans (pairSwap_same h1))
+  | receive from_ amount hk =>
+    obtain ⟨P, w0, _, h0, h1⟩ := pairExec_receive h
+    exact .inl ((attach_same h0).1.trans (pairReceive_same h1))
+  | updateDecimals d da db =>
+    obtain ⟨P, w0, w1, _, h0, h1, he⟩ := pairExec_updateDecimals h
+    simp only [Prod.mk.injEq] at he
+    obtain ⟨rfl, _⟩ := he
+    exact .inr ⟨d, da, db, w0, rfl, (attach_same h0).1, h1⟩
+
+theorem tokSendPair_same {w w' : World} {t sender p amt : Nat} {hk : Hook} {out : Out}
+    (h : tokSendPair w t sender p amt hk = .ok (w', out)) : Same w w' := by
+  unfold tokSendPair at h
+  simp only [bind_ok_iff] at h
+  obtain ⟨w1, h1, h2⟩ := h
+  exact (tokTransfer_same h1).1.trans (pairReceive_same h2)
+
+theorem routerHop_same {w w' : World} {sender : Nat} {offer ask : Asset} {tgt : Option Nat}
+    (h : routerHop w sender offer ask tgt = .ok w') : Same w w' := by
+  unfold routerHop at h
+  split at h
+  · cases h
+  split at h
+  · cases h
+  simp only [bind_ok_iff] at h
+  obtain ⟨amount, _, h⟩ := h
+  split at h
+  · simp only [bind_ok_iff, pure_ok_iff] at h
+    obtain ⟨⟨w1, o⟩, h1, rfl⟩ := h
+    rcases pairExec_cases h1 with hs | ⟨_, _, _, _, hm, _⟩
+    · exact hs
+    · cases hm
+  · simp only [bind_ok_iff, pure_ok_iff] at h
+    obtain ⟨⟨w1, o⟩, h1, rfl⟩ := h
+    exact tokSendPair_same h1
+
+theorem routerHops_same {tgt : Nat} : ∀ (ops : List (Asset × Asset)) {w w' : World},
+    routerHops w tgt ops = .ok w' → Same w w'
+  | [], w, w', h => by
+    simp only [routerHops] at h; injection h with h; subst h; exact Same.refl _
+  | [(o, a)], w, w', h => by
+    simp only [routerHops] at h; exact routerHop_same h
+  | (o, a) :: b :: rest, w, w', h => by
+    simp only [routerHops, bind_ok_iff] at h
+    obtain ⟨w1, h1, h2⟩ := h
+    exact (routerHop_same h1).trans (routerHops_same (b :: rest) h2)
+
+theorem routerSwapOps_same {name : Asset → String} {w w' : World} {sender : Nat} {ops : List (Asset × Asset)}
+    {mn tgt : Option Nat} (h : routerSwapOps name w sender ops mn tgt = .ok w') : Same w w' := by
+  unfold routerSwapOps at h
+  split at h
+  · cases h
+  simp only [bind_ok_iff] at h
+  obtain ⟨_, _, h⟩ := h
+  split at h
+  · exact routerHops_same _ h
+  · simp only [bind_ok_iff, pure_ok_iff] at h
+    obtain ⟨_, _, w1, h1, _, _, rfl⟩ := h
+    exact routerHops_same _ h1
+
+theorem routerReceive_same {name : Asset → String} {w w' : World} {from_ : Nat} {hk : Hook}
+    (h : routerReceive name w from_ hk = .ok w') : Same w w' := by
+  unfold routerReceive at h
+  split at h
+  · exact routerSwapOps_same h
+  · cases h
+
+theorem routerExec_same {name : Asset → String} {w w' : World} {sender : Nat} {funds : List (Nat × Nat)}
+    {m : RouterMsg} (h : routerExec name w sender funds m = .ok w') : Same w w' := by
+  unfold routerExec at h
+  simp only [bind_ok_iff] at h
+  obtain ⟨w0, h0, h⟩ := h
+  refine (attach_same h0).1.trans ?_
+  cases m with
+  | swapOps ops mn tgt => exact routerSwapOps_same h
+  | swapOp o a tgt => exact routerHop_same h
+  | assertMin a prev mn rcv =>
+    simp only [bind_ok_iff, pure_ok_iff] at h
+    obtain ⟨_, _, rfl⟩ := h
+    exact Same.refl _
+  | receive from_ amount hk => exact routerReceive_same h
+
+theorem tokSend_same {name : Asset → String} {w w' : World} {t sender dst amt : Nat} {hk : Hook} {out : Out}
+    (h : tokSend name w t sender dst amt hk = .ok (w', out)) : Same w w' := by
+  unfold tokSend at h
+  split at h
+  · exact tokSendPair_same h
+  · split at h
+    · simp only [bind_ok_iff, pure_ok_iff, Prod.mk.injEq] at h
+      obtain ⟨w1, h1, w2, h2, rfl, _⟩ := h
+      exact (tokTransfer_same h1).1.trans (routerReceive_same h2)
+    · cases h
+
+/-! ### every operation preserves the invariant -/
+
+theorem regOK_step {name : Asset → String} {w w' : World} {op : Op} {out : Out}
+    (hr : RegOK w) (hraw : RawOK w)
+    (hactor : ∀ s p f m, op = .pair s p f m → s ≠ w.facAddr)
+    (hfresh : ∀ s f a0 a1 req c np nl, op = .factory s f (.createPair a0 a1 req c np nl) → w.pair np = none)
+    (h : exec name w op = .ok (w', out)) : RegOK w' := by
+  cases op with
+  | bankSend s d cs =>
+    simp only [exec, bind_ok_iff, pure_ok_iff, Prod.mk.injEq] at h
+    obtain ⟨w1, h1, rfl, _⟩ := h
+    exact regOK_same (bankSend_same h1).1 hr
+  | tokTransfer t s d a =>
+    simp only [exec, bind_ok_iff, pure_ok_iff, Prod.mk.injEq] at h
+    obtain ⟨w1, h1, rfl, _⟩ := h
+    exact regOK_same (tokTransfer_same h1).1 hr
+  | tokSend t s d a hk => exact regOK_same (tokSend_same h) hr
+  | tokIncAllow t o s a =>
+    simp only [exec, bind_ok_iff, pure_ok_iff, Prod.mk.injEq] at h
+    obtain ⟨w1, h1, rfl, _⟩ := h
+    exact regOK_same (tokIncAllow_same h1).1 hr
+  | tokBurn t s a =>
+    simp only [exec, bind_ok_iff, pure_ok_iff, Prod.mk.injEq] at h
+    obtain ⟨w1, h1, rfl, _⟩ := h
+    exact regOK_same (tokBurn_same h1).1 hr
+  | pair s p f m =>
+    have h' : pairExec w s p f m = .ok (w', out) := h
+    rcases pairExec_cases h' with hs | ⟨d, da, db, w0, rfl, hs0, hu⟩
+    · exact regOK_same hs hr
+    · have hr0 := regOK_same hs0 hr
+      obtain ⟨P, hP, hsP, rfl⟩ := pairUpdateDecimals_inv hu
+      refine regOK_transfer (w := w0) rfl rfl rfl rfl ?_ hr0
+      intro e he
+      have hne : ¬ e.2.pair = p := by
+        intro hp
+        obtain ⟨P', hP', _, _, _, _, _, _, _, hf⟩ := hr0.matched e he
+        rw [hp, hP] at hP'; injection hP' with hP'; subst hP'
+        exact hactor s p f _ rfl (by rw [hsP, hf, hs0.facAddr])
+      simp only [hne, if_false]
+  | router s f m =>
+    simp only [exec, bind_ok_iff, pure_ok_iff, Prod.mk.injEq] at h
+    obtain ⟨w1, h1, rfl, _⟩ := h
+    exact regOK_same (routerExec_same h1) hr
+  | factory s f m =>
+    simp only [exec, bind_ok_iff, pure_ok_iff, Prod.mk.injEq] at h
+    obtain ⟨w1, h1, rfl, _⟩ := h
+    unfold facExec at h1
+    simp only [bind_ok_iff] at h1
+    obtain ⟨w0, h0, h1⟩ := h1
+    have hs0 := (attach_same h0).1
+    have hr0 := regOK_same hs0 hr
+    have hraw0 := rawOK_of_eq hs0.rawId hraw
+    cases m with
+    | updateConfig o =>
+      have h2 : facUpdateConfig w0 s o = .ok w1 := h1
+      unfold facUpdateConfig at h2
+      split at h2
+      · cases h2
+      injection h2 with h2
+      subst h2
+      exact regOK_transfer (w := w0) rfl rfl rfl rfl (fun _ _ => rfl) hr0
+    | createPair a0 a1 req comm np nl =>
+      exact regOK_createPair hr0 hraw0 (by rw [hs0.pair]; exact hfresh _ _ _ _ _ _ _ _ rfl) h1
+    | addDecimals d k => exact regOK_addDecimals hr0 hraw0 h1
+    | migratePair p =>
+      have h2 : facMigratePair w0 s p = .ok w1 := h1
+      unfold facMigratePair at h2
+      split at h2
+      · cases h2
+      split at h2
+      · split at h2
+        · injection h2 with h2; subst h2; exact hr0
+        · cases h2
+      · cases h2
+
 end Halo.RegOKP
